@@ -21,7 +21,9 @@ def run(ctx):
         jobs["mc1"] = dict(area=AREA, module="RedirectMC", cfg="RedirectMC.cfg", workers=2, timeout=900,
                            consts=dict(INITS="QuickInits", TARGETS="KeyTargets", MAXSET="{1, 2}", MAXHOPS=2, ORIGINS="SetterOrigin"))
         gens = {"gen1": dict(INITS="OneInit", TARGETS="AllTargets", STATUSES="AllStatuses", FORMS="AllForms",
-                             METHODS="KeyMethods", MAXSET="{1}", EXHOPS=1, NSAMPLES=1500, SAMPLEHOPS=3, ORIGINS="SetterOrigin")}
+                             METHODS="KeyMethods", MAXSET="{1}", EXHOPS=1, NSAMPLES=1500, SAMPLEHOPS=3, ORIGINS="SetterOrigin"),
+                "gen2": dict(INITS="OneInit", TARGETS="ChainTargets", STATUSES="ChainStatuses", FORMS="ChainForms",
+                             METHODS="ChainMethods", MAXSET="{3}", EXHOPS=2, NSAMPLES=0, SAMPLEHOPS=1, ORIGINS="SetterOrigin")}
     else:
         jobs["mc1"] = dict(area=AREA, module="RedirectMC", cfg="RedirectMC.cfg", workers=2, timeout=3000,
                            consts=dict(INITS="KeyInits", TARGETS="AllTargets", MAXSET="{0, 1, 3}", MAXHOPS=4, ORIGINS="SetterOrigin"))
@@ -31,6 +33,8 @@ def run(ctx):
                              METHODS="AllMethods", MAXSET="{0, 1}", EXHOPS=1, NSAMPLES=20000, SAMPLEHOPS=4, ORIGINS="SetterOrigin"),
                 "gen2": dict(INITS="KeyInits", TARGETS="KeyTargets", STATUSES="KeyStatuses", FORMS="KeyForms",
                              METHODS="KeyMethods", MAXSET="{2}", EXHOPS=2, NSAMPLES=0, SAMPLEHOPS=1, ORIGINS="SetterOrigin"),
+                "gen4": dict(INITS="QuickInits", TARGETS="ChainTargets", STATUSES="ChainStatuses", FORMS="ChainForms",
+                             METHODS="KeyMethods", MAXSET="{3}", EXHOPS=3, NSAMPLES=0, SAMPLEHOPS=1, ORIGINS="SetterOrigin"),
                 "gen3": dict(INITS="OneInit", TARGETS="AllTargets", STATUSES="AllStatuses", FORMS="AllForms",
                              METHODS="KeyMethods", MAXSET="{1}", EXHOPS=1, NSAMPLES=0, SAMPLEHOPS=1, ORIGINS="AllOrigins")}
     for name, c in gens.items():
